@@ -174,9 +174,10 @@ def check(ctx: Ctx):
     okv = len(vc) == 1
     if okv:
         facts = _facts(ffa, vc[0])
-        okv = (p_flag, True) in facts and any(t.endswith(" not in cost_vars") and p for t, p in facts)
+        seen = [t.split(" not in ", 1) for t, p in facts if p and " not in " in t] + [t.split(" in ", 1) for t, p in facts if (not p) and " in " in t and " not in " not in t]
         blk = [s for s in ast.walk(lp) if isinstance(s, ast.If) and vc[0] in s.body]
-        okv = okv and bool(blk) and any(isinstance(s, ast.Expr) and isinstance(s.value, ast.Call) and norm(s.value.func) == "cost_vars.add" for s in blk[0].body)
+        okv = (p_flag, True) in facts and bool(blk) and any(
+            any(isinstance(s, ast.Expr) and isinstance(s.value, ast.Call) and norm(s.value.func) == f"{sv}.add" and [norm(a) for a in s.value.args] == [key] for s in blk[0].body) for key, sv in seen)
     ctx.check(okv, "R-ONCE", "variable cost only on request and once per variable", ac, vc[0] if vc else lp,
               "a variable's own cost may be added only when consider_variable_cost is set and only the first time the variable is met")
     rets = [r for r in walk_no_nested(ac.node) if isinstance(r, ast.Return)]
